@@ -620,6 +620,9 @@ void setbuf(FILE *f, char *buf) { setvbuf(f, buf, buf ? _IOFBF : _IONBF, BUFSIZ)
 void setbuffer(FILE *f, char *buf, size_t size) { setvbuf(f, buf, buf ? _IOFBF : _IONBF, size); }
 void setlinebuf(FILE *f) { setvbuf(f, nullptr, _IOLBF, 0); }
 
+// umask is process-wide and can only be read by writing it: a scheduling point, then the real call (the harness restores it after each run)
+mode_t umask(mode_t m) { if (!sim_active()) return (mode_t)RAW(SYS_umask, (long)m, 0, 0, 0, 0, 0); { SimScope s; sim_step(); sim_event("umask"); sched_point(SP_IO); } return (mode_t)RAW(SYS_umask, (long)m, 0, 0, 0, 0, 0); }
+
 // ---------------------------------------------------------------- calls that wait for somebody else
 unsigned sleep(unsigned n) { if (!sim_active()) return REAL(sleep)(n); blocks("sleep"); return 0; }
 int usleep(useconds_t n) { if (!sim_active()) return REAL(usleep)(n); blocks("usleep"); return 0; }
